@@ -37,6 +37,23 @@ var helperFuncs = template.FuncMap{
 	"sanitize": func(name string) string {
 		return invalid.ReplaceAllString(name, "_")
 	},
+	// escape makes a text safe inside a double-quoted VCL string literal.
+	// VCL strings have no backslash escapes: a double quote, a percent sign
+	// (the start of an escape sequence) and control characters such as line
+	// feeds must be written as %XX, otherwise the value is read back
+	// differently ("a%20b" becomes "a b") or the literal does not parse at all.
+	"escape": func(text string) string {
+		var buf bytes.Buffer
+		for i := 0; i < len(text); i++ {
+			c := text[i]
+			if c == '"' || c == '%' || c < 0x20 || c == 0x7f {
+				fmt.Fprintf(&buf, "%%%02X", c)
+				continue
+			}
+			buf.WriteByte(c)
+		}
+		return buf.String()
+	},
 	"objectify": func(p Phase) string {
 		switch p {
 		case RequestPhase:
@@ -54,11 +71,12 @@ var helperFuncs = template.FuncMap{
 
 var dictionaryTemplate = template.Must(
 	template.New("dictionary").
+		Funcs(helperFuncs).
 		Parse(
 			`
 table {{ .Name }} STRING {
   {{- range .Items }}
-  "{{ .Key }}": "{{ .Value }}",
+  "{{ .Key | escape }}": "{{ .Value | escape }}",
   {{- end }}
 }
 `,
